@@ -26,8 +26,8 @@ CONSTANT KnownIds
 Rec == ndJsonDeserialize(IOEnv.TRACE)
 N == Len(Rec)
 
-VARIABLES l, cur, opt, kq, tq, kN, tN, ended, failed, errmsg, inTab, afterTab, tabCleared, held, phys, mphys, must, pend, onJust, prevOut, prevTimeout, viol, cs, lay, flushed
-vars == <<l, cur, opt, kq, tq, kN, tN, ended, failed, errmsg, inTab, afterTab, tabCleared, held, phys, mphys, must, pend, onJust, prevOut, prevTimeout, viol, cs, lay, flushed>>
+VARIABLES l, cur, opt, kq, tq, kN, tN, ended, failed, errmsg, inTab, afterTab, tabCleared, held, phys, mphys, aphys, must, pend, onJust, prevOut, prevTimeout, viol, cs, lay, flushed
+vars == <<l, cur, opt, kq, tq, kN, tN, ended, failed, errmsg, inTab, afterTab, tabCleared, held, phys, mphys, aphys, must, pend, onJust, prevOut, prevTimeout, viol, cs, lay, flushed>>
 
 EndEv == [t |-> "E", k |-> ""]
 NoPend == [on |-> FALSE, keys |-> <<>>, interval |-> 0, delay |-> 0, lo |-> 0, hi |-> 0, open |-> FALSE]
@@ -45,7 +45,7 @@ Bump(i) == TLCSet(i, TLCGet(i) + 1)
 BumpIf(c, i) == c => Bump(i)
 
 Init == /\ l = 1 /\ cur = "" /\ opt = NoOpt /\ kq = <<>> /\ tq = <<>> /\ kN = FALSE /\ tN = FALSE /\ ended = FALSE /\ failed = FALSE /\ errmsg = ""
-        /\ inTab = FALSE /\ afterTab = FALSE /\ tabCleared = FALSE /\ held = {} /\ phys = {} /\ mphys = {} /\ must = NoMust /\ pend = NoPend /\ onJust = FALSE /\ prevOut = 0 /\ prevTimeout = FALSE
+        /\ inTab = FALSE /\ afterTab = FALSE /\ tabCleared = FALSE /\ held = {} /\ phys = {} /\ mphys = {} /\ aphys = {} /\ must = NoMust /\ pend = NoPend /\ onJust = FALSE /\ prevOut = 0 /\ prevTimeout = FALSE
         /\ viol = {} /\ cs = InitLoop /\ lay = <<>> /\ flushed = FALSE
         /\ \A i \in 1..NReg: TLCSet(i, 0)
 
@@ -104,7 +104,7 @@ PollTiming(r) ==
 Reset(r) ==
   /\ cur' = r.id /\ lay' = r.layout /\ cs' = InitLoop /\ opt' = [slack |-> r.slack, errtext |-> r.errtext]
   /\ kq' = <<>> /\ tq' = <<>> /\ kN' = FALSE /\ tN' = FALSE /\ ended' = FALSE /\ failed' = FALSE /\ errmsg' = ""
-  /\ inTab' = FALSE /\ afterTab' = FALSE /\ tabCleared' = FALSE /\ held' = {} /\ phys' = {} /\ mphys' = {} /\ must' = NoMust /\ pend' = NoPend /\ onJust' = FALSE /\ prevOut' = 0 /\ prevTimeout' = FALSE
+  /\ inTab' = FALSE /\ afterTab' = FALSE /\ tabCleared' = FALSE /\ held' = {} /\ phys' = {} /\ mphys' = {} /\ aphys' = {} /\ must' = NoMust /\ pend' = NoPend /\ onJust' = FALSE /\ prevOut' = 0 /\ prevTimeout' = FALSE
   /\ viol' = {} /\ Report(cur, viol) /\ Bump(1)
 
 ConsumeLine ==
@@ -120,6 +120,7 @@ ConsumeLine ==
        /\ viol' = viol \cup Tag(r.k = "read" /\ r.res = "one" /\ (kq1 = <<>> \/ Head(kq1) # r.e), "ENV-wrong-event")
        /\ kq' = kq2 /\ kN' = (kq2 # <<>>) /\ prevOut' = r.tout
        /\ UNCHANGED <<cur, opt, lay, cs, tq, tN, ended, failed, errmsg, inTab, afterTab, tabCleared, held, phys, mphys, must, pend, onJust, prevTimeout>>
+       /\ aphys' = HeldAfter(aphys, SelectSeq(r.arrK, LAMBDA e: e.t # "E"))
      ELSE IF r.c = "ret" THEN
        /\ viol' = viol \cup Owed
                     \cup Tag(r.panic, "C10-loop-panicked")
@@ -127,7 +128,7 @@ ConsumeLine ==
                     \cup Tag(~failed /\ ~r.ok /\ ~r.panic, "C10-loop-returned-error")
                     \cup Tag(~failed /\ r.ok /\ ~ended, "C10-loop-returned-before-end-of-device")
        /\ Conf(r) /\ must' = NoMust /\ onJust' = FALSE
-       /\ UNCHANGED <<cur, opt, lay, kq, tq, kN, tN, ended, failed, errmsg, inTab, afterTab, tabCleared, held, phys, mphys, pend, prevOut, prevTimeout>>
+       /\ UNCHANGED <<cur, opt, lay, kq, tq, kN, tN, ended, failed, errmsg, inTab, afterTab, tabCleared, held, phys, mphys, aphys, pend, prevOut, prevTimeout>>
      ELSE
        LET kq1 == kq \o r.arrK   tq1 == tq \o TabQ(r.arrT)
            kN1 == kN \/ r.arrK # <<>>   tN1 == tN \/ r.arrT # <<>>
@@ -136,6 +137,7 @@ ConsumeLine ==
            pendC == IF pend.on /\ pend.open /\ r.c # "send" THEN [pend EXCEPT !.hi = r.tin + pend.delay * 1000, !.open = FALSE] ELSE pend
        IN
        /\ Conf(r) /\ prevOut' = r.tout /\ cur' = cur /\ lay' = lay /\ opt' = opt
+       /\ aphys' = HeldAfter(aphys, SelectSeq(r.arrK, LAMBDA e: e.t # "E"))
        /\ failed' = (failed \/ isErr) /\ errmsg' = (IF isErr THEN r.err ELSE errmsg)
        /\ BumpIf(isErr, 7)
        /\ CASE r.c = "register" ->
@@ -152,6 +154,9 @@ ConsumeLine ==
                        \* C12: the switch has reported a change, the loop was notified and goes back to waiting without reading it
                        \* (edge-triggered: it will not be told again) - it then does not know which mode the computer is in
                        \cup Tag(tq # <<>> /\ ~tN, "C12-tablet-event-left-unread")
+                       \* C01 at the loop: the loop goes (back) to waiting, every key that ever went down has come up again (by everything
+                       \* that has ARRIVED so far), and keys are still down on the virtual keyboard
+                       \cup Tag(aphys = {} /\ held # {} /\ ~isErr, "C01-keys-held-while-waiting-although-every-key-was-released")
                        \cup Tag(ended, "C10-call-after-end-of-device")
                        \cup (IF isErr THEN {} ELSE PollTiming(r))
                        \cup Tag(r.res = "dev" /\ \E i \in 1..Len(r.devs): (r.devs[i] = "K" /\ ~kN1) \/ (r.devs[i] = "T" /\ ~tN1), "ENV-bad-readiness")
@@ -181,6 +186,12 @@ ConsumeLine ==
                        \cup Tag(r.res = "busy" /\ kq1 # <<>>, "ENV-busy-with-data")
                        \cup Tag(one /\ (kq1 = <<>> \/ Head(kq1) # r.e), "ENV-wrong-event")
                        \cup Tag(r.res = "end" /\ (kq1 = <<>> \/ Head(kq1) # EndEv), "ENV-wrong-end")
+                       \* C11: "writes the repeat chord (those of ITS keys ... in LISTED order)": the request the loop works from must be
+                       \* the repeat of a Special mapping of the layout, keys in the order the layout lists them
+                       \cup Tag(one /\ ~inTab /\ r.ref.rep.kind = "Repeating"
+                              /\ ~\E i \in 1..Len(lay): lay[i].repeat.kind = "Special" /\ lay[i].repeat.keys = r.ref.rep.keys
+                                                           /\ lay[i].repeat.delay = r.ref.rep.delay /\ lay[i].repeat.interval = r.ref.rep.interval,
+                              "C11-repeat-not-as-listed-in-the-layout")
                  /\ BumpIf(one /\ inTab, 9)
                  /\ kq' = (IF one THEN Tail(kq1) ELSE kq1) /\ tq' = tq1 /\ kN' = kN1 /\ tN' = tN1
                  /\ ended' = (ended \/ r.res = "end")
@@ -228,6 +239,7 @@ ConsumeLine ==
                              ELSE {"C10-wrong-payload-" \o must.kind})
                        \cup Tag(r.evs # <<>> /\ must.kind = "step" /\ afterTab /\ r.evs # must.evs2, "C12-not-fresh-after-tablet-mode")
                        \cup Tag(r.evs # <<>> /\ must.on /\ must.kind = "chord" /\ afterTab /\ r.evs # must.evs, "C12-chord-not-as-fresh-after-tablet-mode")
+                       \cup Tag(r.evs # <<>> /\ ~must.on /\ ~must.on2 /\ ~prevTimeout /\ afterTab /\ ~inTab, "C12-write-a-fresh-loop-would-not-make-after-tablet-mode")
                        \cup Tag(isChord /\ HeldAfter(held, r.evs) # held, "C11-chord-not-transient")
                        \* C12: a repeat chord although a tablet-mode switch was read since the last repeat was armed ("resumes as from a fresh start")
                        \cup Tag(r.evs # <<>> /\ tabCleared /\ prevTimeout /\ ~must.on, "C12-repeat-survives-tablet-switch")
@@ -240,7 +252,7 @@ ConsumeLine ==
                  /\ UNCHANGED <<ended, inTab, afterTab, tabCleared, onJust, phys, mphys>>
 
 Flush == /\ l = N + 1 /\ ~flushed /\ flushed' = TRUE /\ Report(cur, viol)
-         /\ UNCHANGED <<l, cur, opt, kq, tq, kN, tN, ended, failed, errmsg, inTab, afterTab, tabCleared, held, phys, mphys, must, pend, onJust, prevOut, prevTimeout, viol, cs, lay>>
+         /\ UNCHANGED <<l, cur, opt, kq, tq, kN, tN, ended, failed, errmsg, inTab, afterTab, tabCleared, held, phys, mphys, aphys, must, pend, onJust, prevOut, prevTimeout, viol, cs, lay>>
 
 Next == ConsumeLine \/ Flush
 Spec == Init /\ [][Next]_vars
